@@ -4,6 +4,8 @@
   (which callbacks call hooks, in which order the interface tests appear, where the statement is).
 -/
 import GormModel.Model.Pipeline
+import GormModel.Gen.Finishers
+import GormModel.Gen.Misc
 namespace Gorm
 
 /-- argument shapes `callMethod` distinguishes (db.Statement.ReflectValue) -/
@@ -63,5 +65,81 @@ def opEvents (hs : List HandlerFact) (regs : List CbReg) (has : String → Bool)
       (if h.callsMethod then hookEventsOf h.hooks has n 0 else []) ++
       (if h.sendsStatement then [HEv.stmt] else [])
     | none => []
+
+/-! ## Compound finishers (finisher_api.go): which pipelines one call runs with hooks on
+
+`Gen.finishers` lists, per finisher, every place where a callback pipeline is entered (directly through
+`callbacks.K().Execute`, or by calling another finisher on a derived handle) and every control-flow path
+through the body.  A *run* is what one path executes: a list of (pipeline kind, hooks on?) -- an entry whose
+handle derives from a `Session{SkipHooks: true}` literal runs its pipelines with hooks off. -/
+
+/-- hooks a pipeline can fire (from the regenerated registration + handler tables) -/
+def pipelineHooks (hs : List HandlerFact) (regs : List CbReg) : List String :=
+  regs.flatMap fun r =>
+    match handlerOf hs r.handler with
+    | some h => if h.callsMethod then h.hooks else []
+    | none => []
+
+def kindHooks (ps : List (String × List CbReg)) (hs : List HandlerFact) (k : String) : List String :=
+  match ps.find? (fun p => p.1 = k) with
+  | some p => pipelineHooks hs p.2
+  | none => []
+
+/-- all lists obtained by picking one alternative per position and concatenating -/
+def concatAlts {α : Type} : List (List (List α)) → List (List α)
+  | [] => [[]]
+  | alts :: rest => alts.flatMap fun a => (concatAlts rest).map fun r => a ++ r
+
+/-- runs of finisher `fn`: per path, the (kind, hooksOn) sequence; re-entered finishers are expanded (`fuel`
+    bounds the nesting: Save -> Create -> CreateInBatches is depth 3); `skip` = an enclosing entry already
+    switched hooks off -/
+def runsOf (fs : List Gen.FinisherFact) (skipFns : List String := []) : Nat → Bool → String → List (List (String × Bool))
+  | 0, _, _ => []
+  | fuel+1, skip0, fn =>
+    -- `skipFns`: finishers that assign `tx.Statement.SkipHooks = true` before executing (UpdateColumn(s))
+    let skip := skip0 || skipFns.contains fn
+    match fs.find? (fun f => f.fn = fn) with
+    | none => []
+    | some f =>
+      f.paths.flatMap fun path =>
+        concatAlts (path.map fun id =>
+          match f.entries.find? (fun e => e.id = id) with
+          | none => [[]]
+          | some e =>
+            let sk := skip || e.skipHooks
+            if e.callee = "" then [[(e.kind, !sk)]]
+            else runsOf fs skipFns fuel sk ("DB." ++ e.callee))
+
+/-- finishers of finisher_api.go that assign `Statement.SkipHooks = true` (regenerated: Gen.skipHooksAssigns) -/
+def skipHookFinishers : List String :=
+  (Gen.skipHooksAssigns.filter fun a => a.1 = "finisher_api.go" && a.2.2 = "true").map (·.2.1)
+
+/-- hook names one run can fire for a record -/
+def runHooks (ps : List (String × List CbReg)) (hs : List HandlerFact) (run : List (String × Bool)) : List String :=
+  run.flatMap fun ke => if ke.2 then kindHooks ps hs ke.1 else []
+
+/-- the batch loop of CreateInBatches: `for i := 0; i < n; i += b { ends := min(i+b, n); Dest = value[i:ends] }`
+    (fuel = n suffices for b >= 1) -/
+def batchFrom (b n : Nat) : Nat → Nat → List (Nat × Nat)
+  | 0, _ => []
+  | fuel+1, i => if i < n then (i, min (i + b) n) :: batchFrom b n fuel (i + b) else []
+
+def batchRanges (n b : Nat) : List (Nat × Nat) := batchFrom b n n 0
+
+def HEv.shift (off : Nat) : HEv → HEv
+  | .hook h i => .hook h (i + off)
+  | .stmt => .stmt
+
+/-- predicted event list of one run over top-level records: a run of one repeatable pipeline is executed once per
+    batch (sizes = batch ranges); otherwise every pipeline of the run sees all `n` records -/
+def compoundEvents (ps : List (String × List CbReg)) (hs : List HandlerFact) (has : String → Bool)
+    (run : List (String × Bool)) (n : Nat) (batches : List (Nat × Nat)) : List HEv :=
+  let one (ke : String × Bool) (cnt off : Nat) : List HEv :=
+    match ps.find? (fun p => p.1 = ke.1) with
+    | some p => (opEvents hs p.2 (fun h => ke.2 && has h) cnt).map (HEv.shift off)
+    | none => []
+  match run, batches with
+  | [ke], _ :: _ => batches.flatMap fun r => one ke (r.2 - r.1) r.1
+  | _, _ => run.flatMap fun ke => one ke n 0
 
 end Gorm
